@@ -83,7 +83,9 @@ Record spst := mkSp {
   q_early : bool;                (* application data arrived before that *)
   q_closed : bool;               (* Close was called *)
   q_cw : bool;                   (* CloseWrite was accepted *)
-  q_fatal : option (call * eclass); (* first fatal error returned by Read / Write / Handshake, and by which *)
+  q_fatal : option (call * eclass); (* first fatal error returned by Read / Write / Handshake, and by which: from then on
+                                       neither half delivers or sends (end-of-stream from Read, "shutdown" from Write
+                                       and a call that would block are not fatal) *)
   q_eof : bool;                  (* a Read returned end-of-stream *)
   q_hsfail : bool                (* a Handshake call returned an error *)
 }.
@@ -139,12 +141,7 @@ Definition check (p : plan) (q : spst) (c : call) (b : obs) : list N :=
       let deliv := q_deliv q ++ b_data b in
       (if q_closed q then (if quiet then [] else [4%N])
        else match q_fatal q with
-            | Some (k, e) => if Nat.eqb n 0 || quiet then []
-                        else match k, e with
-                             | CRead _, XLocal 100 => [5%N]       (* K11 *)
-                             | CWrite _, XClosed => [17%N]        (* K10: a failed transport write does not stop Read *)
-                             | _, _ => [15%N]
-                             end
+            | Some _ => if Nat.eqb n 0 || quiet then [] else [15%N]   (* delivered (or did not fail) after a fatal error of either half *)
             | None => if q_eof q && negb (Nat.eqb n 0) && negb quiet then [7%N] else []
             end) ++
       (match b_err b with
@@ -160,11 +157,7 @@ Definition check (p : plan) (q : spst) (c : call) (b : obs) : list N :=
   | CWrite bs =>
       (if q_closed q then (if quiet then [] else [4%N])
        else match q_fatal q with
-            | Some (k, e) => if quiet then []
-                        else match k, e with
-                             | CRead _, (XRemote _ | XUnexpectedEof) => [6%N]   (* K10: an error received on the read half does not stop Write *)
-                             | _, _ => [16%N]
-                             end
+            | Some _ => if quiet then [] else [16%N]                  (* sent (or did not fail) after a fatal error of either half *)
             | None => if q_cw q && negb quiet then [10%N] else []
             end) ++
       (if q_early q && negb failed then [11%N] else []) ++
@@ -228,15 +221,10 @@ Fixpoint codes (p : plan) (q : spst) (h : list (call * obs)) : list N :=
   | (c, b) :: t => check p q c b ++ codes p (update q c b) t
   end.
 
-(* one code per case: the first one that is not a known finding's (5, 6, 17), otherwise the first *)
+(* one code per case: the first clause violated *)
 Definition spec_code (c : case) : N :=
   match c with
-  | ApiCase p h =>
-      let cs := codes p sp0 h in
-      match filter (fun x => negb (N.eqb x 5 || N.eqb x 6 || N.eqb x 17)) cs with
-      | x :: _ => x
-      | [] => match cs with x :: _ => x | [] => 0%N end
-      end
+  | ApiCase p h => match codes p sp0 h with x :: _ => x | [] => 0%N end
   end.
 
 Definition mismatches (cs : list (N * case)) : list N :=
